@@ -18,6 +18,8 @@ from tvf.oracles import ess_ref, LD
 def gen_w(rng, nmax=10000):
     r = rng.random()
     n = 1 if r < 0.03 else int(rng.integers(2, 30)) if r < 0.5 else int(rng.integers(30, 1000)) if r < 0.9 else int(rng.integers(1000, nmax + 1))
+    if rng.random() < 0.01:
+        n = int(rng.integers(70000, 200000))           # beyond 2**16 entries
     kind = str(rng.choice(["uniform", "dirichlet", "tempering", "huge-range", "zeros", "ties", "one-hot", "two-level"]))
     if kind == "uniform":
         w = np.ones(n)
@@ -70,6 +72,20 @@ def check_ess(w, kind):
                 bad.append(("ess-scale", f"ESS changes under rescaling by {c}: {e!r} -> {e2!r}"))
     if kind == "uniform" and abs(e - n) > 1e-9 * n:
         bad.append(("ess-uniform", f"uniform weights: ESS={e!r} != N={n}"))
+    if n <= 2000:
+        # the same weights as a Python list and (for integer-valued weights) as an integer array
+        try:
+            el = float(effective_sample_size(list(map(float, w))))
+            if abs(el - ref) > 1e-9 * ref:
+                bad.append(("ess-input-form", f"ESS of the weights given as a list: {el!r}, reference {ref!r}"))
+        except TypeError:
+            pass                 # a list is not promised to be accepted
+        wi = np.rint(w / w[w > 0].min()).astype(np.int64) if (w > 0).any() and w.max() / w[w > 0].min() < 1e6 else None
+        if wi is not None and wi.sum() > 0:
+            ei = float(effective_sample_size(wi))
+            refi = float(ess_ref(wi.astype(float)))
+            if abs(ei - refi) > 1e-9 * refi:
+                bad.append(("ess-input-form", f"ESS of integer weights: {ei!r}, reference {refi!r}"))
     # compute_ess on log-weights (fraction of N)
     pos = w > 0
     if pos.all():
@@ -81,6 +97,12 @@ def check_ess(w, kind):
             f4 = float(compute_ess(lw - np.max(lw) - 5000.0))
         if not (1.0 / n - 1e-12 <= f <= 1 + 1e-9) or abs(f * n - ref) > 1e-7 * ref:
             bad.append(("compute-ess", f"compute_ess={f!r} (x N = {f * n!r}) reference ESS {ref!r}"))
+        if n >= 2:
+            lz = np.concatenate([lw, [-np.inf]])       # a zero weight: ESS unchanged, fraction refers to n+1 samples
+            with np.errstate(all="ignore"):
+                f5 = float(compute_ess(lz))
+            if not (abs(f5 * (n + 1) - ref) <= 1e-7 * ref):
+                bad.append(("compute-ess", f"compute_ess with one -inf log-weight appended: {f5!r} x (N+1) = {f5 * (n + 1)!r}, reference ESS {ref!r}"))
         if abs(f2 - f) > 1e-9 or not (abs(f3 - f) <= 1e-9) or not (abs(f4 - f) <= 1e-9):
             bad.append(("compute-ess-shift", f"compute_ess not invariant to log-weight shift: {f!r} vs {f2!r} (+123), {f3!r} (max=+5000), {f4!r} (max=-5000)"))
     return bad
@@ -134,7 +156,10 @@ def check_volume(rng):
     d = int(rng.integers(1, 7))
     n = int(rng.integers(d + 2, 400))
     kind = str(rng.choice(["gauss", "uniform", "bimodal", "heavy"]))
-    x = rng.standard_normal((n, d)) if kind == "gauss" else rng.random((n, d)) if kind == "uniform" else \
+    if rng.random() < 0.1 and d > 1:
+        kind = "rank-deficient"
+    x = (rng.standard_normal((n, 1)) @ rng.standard_normal((1, d))) if kind == "rank-deficient" else \
+        rng.standard_normal((n, d)) if kind == "gauss" else rng.random((n, d)) if kind == "uniform" else \
         rng.standard_normal((n, d)) + 6 * (rng.random((n, 1)) < 0.3) if kind == "bimodal" else rng.standard_t(2.5, (n, d))
     w = rng.dirichlet(np.full(n, 10 ** rng.uniform(-0.5, 1))) if rng.random() < 0.8 else None
     with np.errstate(all="ignore"):
@@ -148,7 +173,16 @@ def check_volume(rng):
     cov = (x - mu).T @ ((x - mu) * ww[:, None])
     k0 = np.linalg.cond(cov)
     if k0 > 1e8:
-        return bad, desc, False           # ill-conditioned pool: regularisation branch, not judged
+        # ill-conditioned / rank-deficient pool: whether the regularisation branch is taken is decided by rounding
+        # (matrix_rank of a numerically singular matrix), so neither affine nor scale invariance is judged there
+        return bad, desc, False
+    # pure rescaling of the samples
+    for c in (1e-6, 37.0, 1e5):
+        with np.errstate(all="ignore"):
+            vs = float(volume_variation(x * c, None if w is None else w.copy()))
+        if abs(vs - v) > 1e-6 * max(v, 1e-12):
+            bad.append(("volume-sample-scale", f"samples multiplied by {c}: {v!r} -> {vs!r}"))
+            break
     # weight rescaling
     if w is not None:
         for c in (1e-8, 3.0, 1e12):
